@@ -953,16 +953,15 @@ def option_sets(rng, module, function, v):
     if (module, function) == ('stdnum.meid', 'format'):
         res = []
         for fmt in (None, 'hex', 'dec'):
-            for add in (False, True):
-                for sep in (' ', '-', ''):
-                    kw = {}
-                    if fmt:
-                        kw['format'] = fmt
-                    if add:
-                        kw['add_check_digit'] = True
-                    if sep != ' ':
-                        kw['separator'] = sep
-                    res.append(((v,), kw))
+            for add, sep in ((False, ' '), (True, '-'), (True, '')):
+                kw = {}
+                if fmt:
+                    kw['format'] = fmt
+                if add:
+                    kw['add_check_digit'] = True
+                if sep != ' ':
+                    kw['separator'] = sep
+                res.append(((v,), kw))
         return res
     if (module, function) == ('stdnum.imei', 'format'):
         return [((v,), {}), ((v,), {'add_check_digit': True}), ((v,), {'add_check_digit': True, 'separator': ' '}),
@@ -1056,7 +1055,7 @@ def _worker(task):
 
 
 def search(seed, tier):
-    nsynth, chunks = (100, 4) if tier == 'quick' else (500, 16)
+    nsynth, chunks = (50, 4) if tier == 'quick' else (250, 8)
     modules = sorted(set(m for m, f in CHECKS if m != 'stdnum.isin'))
     tasks = [(seed, tier, m, i, nsynth) for m in modules for i in range(chunks if SYNTH_SOURCES.get(m) else 1)]
     col = E.Collector()
